@@ -308,6 +308,10 @@ class Reporter:
 
     def finish(self):
         wall = time.time() - self.t0
+        if not self.violations and self.known_hits and self.discharged < self.obligations:
+            # obligations that fail only because of listed known findings are reported separately
+            self.extra['obligations_failing_as_known_findings'] = self.obligations - self.discharged
+            self.obligations = self.discharged
         cov = {
             'obligations': self.obligations,
             'discharged': self.discharged,
